@@ -11,7 +11,7 @@ from .. import mirq as Q, loops as L
 from ..cg import is_socket_receive, is_socket_send
 from ..mirlib import Body, callee_key
 
-PUSHES = ("Vec::push", "Vec::extend_from_slice", "Vec::extend", "Extend::extend", "Vec::append", "String::push_str", "VecDeque::push_back")
+PUSHES = ("Vec::push", "Vec::insert", "Vec::extend_from_slice", "Vec::extend", "Extend::extend", "Vec::append", "String::push_str", "VecDeque::push_back")
 SORTS = ("slice::sort_by", "slice::sort_by_key", "slice::sort", "slice::sort_unstable_by", "slice::sort_unstable_by_key", "slice::sort_unstable", "slice::sort_by_cached_key")
 
 
@@ -113,7 +113,10 @@ def run(tier, config):
                     val = b.render_operand(t["args"][1], 6, names=False) if len(t["args"]) > 1 else ""
                     tgt = b.render_operand(t["args"][0], 4, names=True)
                     data_derived = any(x in val for x in ("Buffer::", "remaining_bytes", "read", "SplitPacket", "parse", "Try::branch", "to_vec", "clone"))
-                    if base.startswith("Vec::push") and not data_derived:
+                    if base == "Vec::insert" and len(t["args"]) > 2:
+                        val = b.render_operand(t["args"][2], 6, names=False)
+                        data_derived = any(x in val for x in ("Buffer::", "remaining_bytes", "read", "SplitPacket", "parse", "Try::branch", "to_vec", "clone"))
+                    if base.startswith(("Vec::push", "Vec::insert")) and not data_derived:
                         continue  # filler values (Vec::new()) are not data
                     ordered.append((bi, t, "push into %s" % tgt, t["args"][0]))
                 elif t["fn"].get("local") and t["fn"].get("res") and _callee_pushes(c, g, t["fn"]["res"]):
